@@ -5,6 +5,7 @@ package c12
 
 import (
 	"bytes"
+	"errors"
 	"fmt"
 	"strconv"
 	"strings"
@@ -20,6 +21,21 @@ import (
 
 type Case struct {
 	F *oracle.F `json:"f"`
+	// FailFirst > 0: before the export that is judged, the negated formula is exported to a writer that
+	// accepts FailFirst-1 bytes and then returns an error (a full disk, a closed connection).
+	FailFirst int `json:"fail_first,omitempty"`
+}
+
+type failingWriter struct{ left int }
+
+func (w *failingWriter) Write(p []byte) (int, error) {
+	if len(p) <= w.left {
+		w.left -= len(p)
+		return len(p), nil
+	}
+	n := w.left
+	w.left = 0
+	return n, errors.New("harness: writer refuses more bytes")
 }
 
 type export struct {
@@ -103,6 +119,12 @@ func parseExport(txt string) (*export, error) {
 func check(c Case, o *vf.Obs) error {
 	c.F.Link()
 	names := c.F.Vars()
+	if c.FailFirst > 0 {
+		o.Class("after-a-failed-export")
+		if err := vf.Safely(func() error { bf.Dimacs(bf.Not(bfx.Build(c.F)), &failingWriter{left: c.FailFirst - 1}); return nil }); err != nil {
+			return fmt.Errorf("Dimacs to a writer that fails after %d bytes: %v", c.FailFirst-1, err)
+		}
+	}
 	var buf bytes.Buffer
 	if err := bf.Dimacs(bfx.Build(c.F), &buf); err != nil {
 		return fmt.Errorf("Dimacs returned an error: %v", err)
@@ -209,7 +231,11 @@ func genCase(t *rapid.T) Case {
 	if gen.Chance(t, 1, 5, "manyNames") {
 		names = gen.Names(t, 8)
 	}
-	return Case{F: gen.Formula(t, gen.FormulaOpts{MaxDepth: rapid.IntRange(1, 4).Draw(t, "depth"), Names: names, MaxGroup: 8, BigGroupsPos: true, Groups: &[][]string{}, Shared: sharedOpt(t)}, 0, 1)}
+	c := Case{F: gen.Formula(t, gen.FormulaOpts{MaxDepth: rapid.IntRange(1, 4).Draw(t, "depth"), Names: names, MaxGroup: 8, BigGroupsPos: true, Groups: &[][]string{}, Shared: sharedOpt(t)}, 0, 1)}
+	if gen.Chance(t, 1, 4, "failFirst") {
+		c.FailFirst = 1 + rapid.SampledFrom([]int{0, 0, 1, 5, 12, 40, 200}).Draw(t, "acceptedBytes")
+	}
+	return c
 }
 
 func init() {
